@@ -11,6 +11,8 @@ import PagexmlModel.Lemmas.C09Walk
 import PagexmlModel.Lemmas.C09Collinear
 import PagexmlModel.Lemmas.C09Unique
 import PagexmlModel.Props.C03
+import PagexmlModel.Model.C09Rows
+import PagexmlModel.Lemmas.C08Grid
 import Mathlib.Data.List.Rotate
 import Mathlib.Tactic.LinearCombination
 import Mathlib.Tactic.Tauto
@@ -739,5 +741,80 @@ theorem C09_reads_pure (he : HullEdges) (n : Nat) (σ : Elem) :
 
 example : (step (fun _ => .error .QhullError) 2 { coords := some [(1, 1)], cache := none, kids := [] } .readArea).1.coords
     = some [(1, 1)] := (C09_reads_pure _ 2 _).2.2.1
+
+/-! ### table rows (`make_rows_from_cells`, wave 4) -/
+
+private theorem bind_ok' {α β} {x : Res α} {f : α → Res β} {b : β} (h : (x >>= f) = .ok b) :
+    ∃ a, x = .ok a ∧ f a = .ok b := by
+  cases x with
+  | error e => cases h
+  | ok a => exact ⟨a, rfl, h⟩
+
+/-- a successful `mapM`: the results correspond to the inputs one by one, in order -/
+private theorem mapM_ok_forall₂ {α β} (f : α → Res β) : ∀ (xs : List α) (ys : List β), xs.mapM f = .ok ys →
+    List.Forall₂ (fun x y => f x = .ok y) xs ys := by
+  intro xs
+  induction xs with
+  | nil => intro ys h; simp [List.mapM_nil] at h; cases h; exact .nil
+  | cons x xs ih =>
+    intro ys h
+    rw [List.mapM_cons] at h
+    obtain ⟨b, hb, h⟩ := bind_ok' h
+    obtain ⟨bs, hbs, h⟩ := bind_ok' h
+    cases h
+    exact .cons hb (ih bs hbs)
+
+private theorem mkRowG_ok (he : HullEdges) (g : Option Int × List CellG) (r : RowG) (h : mkRowG he g = .ok r) :
+    r.id = g.1 ∧ r.cells = g.2 ∧ parseDerivedCoords he (g.2.map (·.coords)) = .ok r.coords := by
+  unfold mkRowG at h
+  obtain ⟨c, hc, h⟩ := bind_ok' h
+  cases h
+  exact ⟨rfl, rfl, hc⟩
+
+/-- Table rows.  `make_rows_from_cells` makes exactly one row per row index that occurs; the row holds ALL the
+    cells listed under that index, in their order — whatever their `rowSpan`, `cellSpan` or `header` — and its
+    coordinates are what `parse_derived_coords` returns for the coordinates of all these cells, so every hull
+    clause above (`C09_small_as_given`, `C09_collinear_segment`, `C09_derived_is_hull`) applies to the points of
+    all cells of the row.  No cell is left out of the rows, no row is empty. -/
+theorem C09_table_rows_all_cells (he : HullEdges) (cells : List CellG) (rows : List RowG)
+    (h : rowsFromCells he cells = .ok rows) :
+    (rows.map (·.id)).Nodup ∧ (∀ c ∈ cells, c.row ∈ rows.map (·.id)) ∧
+    ∀ r ∈ rows, r.cells = cells.filter (fun c => decide (c.row = r.id)) ∧ r.cells ≠ [] ∧
+      parseDerivedCoords he (r.cells.map (·.coords)) = .ok r.coords := by
+  have inv := C08.groupInv_all CellG.row cells
+  have hf := mapM_ok_forall₂ (mkRowG he) _ _ h
+  change List.Forall₂ _ (groupRows cells) rows at hf
+  change C08.GroupInv CellG.row cells (groupRows cells) at inv
+  generalize groupRows cells = G at hf inv
+  obtain ⟨hnd, hg, hc⟩ := inv
+  have hkeys : rows.map (·.id) = G.map (·.1) := by
+    clear hnd hg hc h
+    induction hf with
+    | nil => rfl
+    | cons hxy _ ih => simp [ih, (mkRowG_ok he _ _ hxy).1]
+  refine ⟨hkeys ▸ hnd, fun c hcm => hkeys ▸ hc c hcm, ?_⟩
+  intro r hr
+  obtain ⟨g, hgm, hgr⟩ : ∃ g ∈ G, mkRowG he g = .ok r := by
+    clear hkeys hnd hg hc h
+    induction hf with
+    | nil => cases hr
+    | cons hxy _ ih =>
+      rcases List.mem_cons.mp hr with rfl | hr
+      · exact ⟨_, List.mem_cons_self, hxy⟩
+      · obtain ⟨g, hg1, hg2⟩ := ih hr
+        exact ⟨g, List.mem_cons_of_mem _ hg1, hg2⟩
+  obtain ⟨e1, e2, e3⟩ := mkRowG_ok he g r hgr
+  obtain ⟨f1, f2⟩ := hg g hgm
+  refine ⟨by rw [e2, e1, f1], by rw [e2]; exact f2, by rw [e2]; exact e3⟩
+
+/-- a row in which a cell spanning two rows (and a header cell) stands next to an ordinary one: all three count -/
+example :
+    (rowsFromCells (fun _ => .error .QhullError)
+      [{ row := some 0, rowSpan := some 2, cellSpan := none, header := none, coords := some [(0, 0)] },
+       { row := some 1, rowSpan := none, cellSpan := none, header := none, coords := some [(0, 9), (3, 9)] },
+       { row := some 0, rowSpan := none, cellSpan := some 1, header := some "true", coords := some [(7, 5)] }]).map
+      (fun rs => rs.map (fun r => (r.id, r.cells.length, r.coords.points)))
+      = .ok [(some 0, 2, [(0, 0), (7, 5)]), (some 1, 1, [(0, 9), (3, 9)])] := by
+  decide
 
 end Pagexml.C09
